@@ -282,6 +282,51 @@ def check_clim_values(ctx):
     return [(by[i], cl) for i, cl in rejects], len(events)
 
 
+def check_time_zones(ctx):
+    """utils.mapdates on times carrying a UTC offset (TimeZones.tla)"""
+    import datetime as dt
+    import numpy as np
+    import pandas as pd
+    import qcexec  # noqa: F401
+    from ioos_qc.utils import mapdates
+    base = 1580515200      # 2020-02-01T00:00:00Z
+    r = ctx.rng
+    events = []
+    for n in range(600):
+        off = r.choice([-18000, 7200, 19800, 0, -34200, 3600])
+        wall = sorted(r.sample(range(-90000, 90000, 1800), r.randint(1, 5)))
+        tz = dt.timezone(dt.timedelta(seconds=off))
+        pyd = [dt.datetime(1970, 1, 1, tzinfo=tz) + dt.timedelta(seconds=base + w - 0) - dt.timedelta(seconds=0) for w in wall]
+        # the wall clock of pyd[i] in its zone must read base + wall[i]
+        pyd = [dt.datetime.fromtimestamp(base + w - off, tz=tz) for w in wall]
+        for carrier in ("pydt_tz", "tuple_tz", "pdts_tz", "iso_offset", "np_object", "series_tz", "dtindex_tz"):
+            if carrier == "pydt_tz":
+                src = list(pyd)
+            elif carrier == "tuple_tz":
+                src = tuple(pyd)
+            elif carrier == "pdts_tz":
+                src = [pd.Timestamp(d) for d in pyd]
+            elif carrier == "iso_offset":
+                src = [d.isoformat() for d in pyd]
+            elif carrier == "np_object":
+                src = np.array(pyd, dtype=object)
+            elif carrier == "series_tz":
+                src = pd.Series(pd.DatetimeIndex(pyd))
+            else:
+                src = pd.DatetimeIndex(pyd)
+            e = {"id": len(events) + 1, "wall": wall, "offset": off, "carrier": carrier, "out": [], "exc": ""}
+            try:
+                out = mapdates(src)
+                e["out"] = [int(v) - base for v in np.asarray(out).astype("datetime64[s]").astype("int64")]
+            except Exception as ex:  # noqa: BLE001
+                e["exc"] = type(ex).__name__
+            events.append(e)
+    import tv
+    rej, _ = tv.validate(events, "TimeZones", "X_tz")
+    by = {e["id"]: e for e in events}
+    return [(by[i], cl) for i, cl in rej], len(events)
+
+
 def check_dictops(ctx):
     """utils.dict_update / dict_depth on every pair of trees of depth <= 2 over two keys and two leaf values, plus a few
     three-key / depth-3 ones; dict, OrderedDict and mixed mappings"""
@@ -347,7 +392,8 @@ def run():
                      ("global ioos_qc_config attribute wins over per-variable attributes (Trace_Config)", check_global_attr_precedence),
                      ("flag metadata of the test functions, stream accessors (ApiMeta.tla)", check_api_meta),
                      ("utils.dict_update / dict_depth (DictOps.tla)", check_dictops),
-                     ("ClimatologyConfig.values lookup (QcTests.ClimValues)", check_clim_values)):
+                     ("ClimatologyConfig.values lookup (QcTests.ClimValues)", check_clim_values),
+                     ("utils.mapdates on times with a UTC offset (TimeZones.tla)", check_time_zones)):
         owned, n = fn(ctx)
         ctx.log("%s: %d events, %d rejected clauses" % (name, n, len(owned)))
         for e, cl in owned[:6]:
